@@ -845,6 +845,7 @@ func allSeqs(sw sweep) [][]uint8 {
 }
 
 func main() {
+	started := time.Now()
 	r := report.Start("C17", "model_checking")
 	// every probe allocates a 4 KiB bufio buffer inside the code under test; with report's default of 2000%
 	// the heap balloons and the time goes into page faults (measured: sys 14 s vs 2 s)
@@ -875,12 +876,12 @@ func main() {
 	if r.Thorough() {
 		sweeps = []sweep{
 			{"small-bodies/undeclared/every-chunking", small, undeclared, 0, 5, false, -1, 2},
-			{"small-bodies/undeclared/len6", small, undeclared, 6, 6, false, 2, 1},
-			{"small-bodies/undeclared/len7", small, undeclared, 7, 7, false, 1, 1},
 			{"buffer-sized-bodies/undeclared", big, undeclared, 0, 5, false, 2, 1},
-			{"extended-read-sizes/undeclared", []int{0, 1, 3, 4095, 4096, 4097, 8193, 12289}, undeclared, 1, 4, true, 1, 1},
 			{"declared-length", declBodies, declared, 0, 5, false, 1, 1},
 			{"net/http-delivered", []int{0, 1, 2, 3, 4096, 4097}, wire, 0, 5, false, 1, 1},
+			{"extended-read-sizes/undeclared", []int{0, 1, 3, 4095, 4096, 4097, 8193, 12289}, undeclared, 1, 4, true, 1, 1},
+			{"small-bodies/undeclared/len6", small, undeclared, 6, 6, false, 2, 1},
+			{"small-bodies/undeclared/len7", small, undeclared, 7, 7, false, 1, 1},
 		}
 	} else {
 		sweeps = []sweep{
@@ -891,6 +892,24 @@ func main() {
 		}
 	}
 
+	// own wall-clock limit, below the tier budgets (quick 60 s, thorough 10 min): on an overloaded machine the
+	// run stops exploring and is reported exhaustive:false with the sweeps it completed - never as a failure
+	limit := 40 * time.Second
+	if r.Thorough() {
+		limit = 8 * time.Minute
+	}
+	var cut atomic.Bool
+	stop := func() bool {
+		if r.OutOfTime() {
+			return true
+		}
+		if time.Since(started) > limit {
+			cut.Store(true)
+			return true
+		}
+		return false
+	}
+	pool := sync.Pool{New: func() any { return newStats() }}
 	var mu sync.Mutex
 	global := map[uint64]struct{}{}
 	var total stats
@@ -920,12 +939,12 @@ func main() {
 		var sampled atomic.Int32
 		t0 := time.Now()
 		rot := int(uint64(r.Seed) % uint64(n))
-		enum.Parallel(n, r.OutOfTime, func(i int) {
+		enum.Parallel(n, stop, func(i int) {
 			i = (i + rot) % n
 			cfg := cfgs[i%len(cfgs)]
 			ops := seqs[i/len(cfgs)]
-			st := newStats()
-			choice.Explore(sw.bound, r.OutOfTime, func(ch *choice.Chooser) {
+			st := pool.Get().(*stats)
+			choice.Explore(sw.bound, stop, func(ch *choice.Chooser) {
 				cl, what := exec(cfg, ops, ch, sw.zeroBudget, st, nil)
 				if cl != "" {
 					r.Fail(cl, what, mkCase(cfg, ops, sw.zeroBudget, ch.Choices()))
@@ -949,6 +968,9 @@ func main() {
 			}
 			swExecs += st.execs
 			mu.Unlock()
+			clear(st.states)
+			*st = stats{states: st.states, buf: st.buf}
+			pool.Put(st)
 		})
 		bound := any(sw.bound)
 		if sw.bound < 0 {
@@ -959,7 +981,7 @@ func main() {
 			"configurations": len(cfgs), "history_length": []int{sw.minLen, sw.maxLen}, "extended_alphabet": sw.extended, "histories": len(seqs),
 			"stream_deviation_bound": bound, "zero_length_read_budget": sw.zeroBudget, "executions": swExecs, "wall_s": time.Since(t0).Seconds(),
 		}
-		if !r.Cut() {
+		if !r.Cut() && !cut.Load() {
 			completed = append(completed, sw.name)
 		}
 	}
@@ -985,5 +1007,5 @@ func main() {
 		"requests are consistent: a Content-Length header accompanies ContentLength only with the same value; ContentLength 0 or -1 without header is 'no length declared'",
 		"a HasBody answer is forced only while sentence 1 (same answer as before) and sentence 2 (positive declared length, or undeclared and a byte can be read) agree; after consumption or Close between two probes it is MAY",
 	)
-	r.Finish("one execution = (configuration, operation history incl. fixed epilogue, choice sequence of the underlying stream); the enumerators never repeat a triple inside a sweep (every history of length 0..depth once, choice.Explore visits each choice sequence within the bound once). Non-trivial = a HasBody call replaced the request body by a peeking wrapper around a non-nil stream AND at least one later HasBody/Read/Close was served through that wrapper", true)
+	r.Finish("one execution = (configuration, operation history incl. fixed epilogue, choice sequence of the underlying stream); the enumerators never repeat a triple inside a sweep (every history of length 0..depth once, choice.Explore visits each choice sequence within the bound once). Non-trivial = a HasBody call replaced the request body by a peeking wrapper around a non-nil stream AND at least one later HasBody/Read/Close was served through that wrapper", !cut.Load())
 }
